@@ -14,6 +14,7 @@
 #include <random>
 #include <thread>
 #include <vector>
+#include <sched.h>
 #include "json.h"
 #include "rkcommon/tasking/detail/enkiTS/LockLessMultiReadPipe.h"
 
@@ -99,10 +100,75 @@ static Json runOne(unsigned seed, int ops, int readers)
   return evs;
 }
 
+// ---- enki::LocklessMultiWriteIntrusiveList (multi-writer, single reader) -----------------------------------
+// writers add distinct nodes, the owner reads; same event vocabulary as the pipe (WInv/WRet/Got/End), so the
+// executions are validated against the same contract (PipeContract): exactly-once hand-out, nothing left behind
+struct LNode { LNode *volatile pNext; int v; };
+
+static Json runList(unsigned seed, int perWriter, int writers, int cpus)
+{
+  if (cpus > 0) {
+    cpu_set_t set; CPU_ZERO(&set);
+    for (int c = 0; c < cpus; ++c) CPU_SET(c, &set);
+    sched_setaffinity(0, sizeof(set), &set);
+  }
+  enki::LocklessMultiWriteIntrusiveList<LNode> *list = new enki::LocklessMultiWriteIntrusiveList<LNode>();
+  std::vector<std::vector<Ev>> logs(writers + 1);
+  std::vector<LNode> nodes((size_t)writers * perWriter);
+  std::atomic<int> writersDone{0};
+  g_stamp = 0;
+  std::vector<std::thread> ths;
+  for (int w = 0; w < writers; ++w) {
+    ths.emplace_back([&, w] {
+      std::mt19937 rng(seed * 31 + w);
+      for (int k = 0; k < perWriter; ++k) {
+        LNode *n = &nodes[(size_t)w * perWriter + k];
+        n->v = w * perWriter + k + 1;
+        long s0 = g_stamp++;
+        list->WriterWriteFront(n);
+        long s1 = g_stamp++;
+        logs[w + 1].push_back(Ev{s0, s1, w + 1, 'W', n->v, true});
+        if (rng() % 4 == 0) std::this_thread::yield();
+      }
+      writersDone++;
+    });
+  }
+  {
+    std::vector<Ev> &lg = logs[0];
+    int idle = 0;
+    while (idle < 2000) {
+      long s0 = g_stamp++;
+      LNode *n = list->ReaderReadBack();
+      long s1 = g_stamp++;
+      if (n) { lg.push_back(Ev{s0, s1, 0, 'B', n->v, true}); idle = 0; }
+      else if (writersDone.load() == writers) ++idle;
+      else std::this_thread::yield();
+    }
+  }
+  for (auto &t : ths) t.join();
+  struct X { long s; Json j; };
+  std::vector<X> xs;
+  for (auto &lg : logs)
+    for (auto &e : lg) {
+      if (e.op == 'W') {
+        Json a = Json::object(); a.set("ev", "WInv").set("v", e.v); xs.push_back(X{e.s0, a});
+        Json b = Json::object(); b.set("ev", "WRet").set("v", e.v).set("ok", true); xs.push_back(X{e.s1, b});
+      } else {
+        Json a = Json::object(); a.set("ev", "Got").set("v", e.v).set("t", e.t).set("front", false); xs.push_back(X{e.s1, a});
+      }
+    }
+  std::sort(xs.begin(), xs.end(), [](const X &a, const X &b) { return a.s < b.s; });
+  Json evs = Json::array();
+  for (auto &x : xs) evs.push(x.j);
+  Json end = Json::object(); end.set("ev", "End"); evs.push(end);
+  // the list object is leaked on purpose (nodes may still be linked from it)
+  return evs;
+}
+
 int main(int argc, char **argv)
 {
   std::string out;
-  unsigned seed = 1; int execs = 10, ops = 40, readers = 3, log2 = 1;
+  unsigned seed = 1; int execs = 10, ops = 40, readers = 3, log2 = 1, listWriters = 0, cpus = 0;
   for (int i = 1; i < argc; ++i) {
     std::string a = argv[i];
     if (a == "--out" && i + 1 < argc) out = argv[++i];
@@ -111,12 +177,15 @@ int main(int argc, char **argv)
     else if (a == "--ops" && i + 1 < argc) ops = atoi(argv[++i]);
     else if (a == "--readers" && i + 1 < argc) readers = atoi(argv[++i]);
     else if (a == "--slotslog2" && i + 1 < argc) log2 = atoi(argv[++i]);
+    else if (a == "--list" && i + 1 < argc) { listWriters = atoi(argv[++i]); }
+    else if (a == "--cpus" && i + 1 < argc) { cpus = atoi(argv[++i]); }
   }
   std::ofstream of(out);
   for (int k = 0; k < execs; ++k) {
     Json r = Json::object();
     r.set("id", k);
-    r.set("events", log2 == 1 ? runOne<1>(seed * 1000 + k, ops, readers) : runOne<2>(seed * 1000 + k, ops, readers));
+    if (listWriters > 0) r.set("events", runList(seed * 1000 + k, ops, listWriters, cpus));
+    else r.set("events", log2 == 1 ? runOne<1>(seed * 1000 + k, ops, readers) : runOne<2>(seed * 1000 + k, ops, readers));
     of << r.dump() << "\n";
   }
   return 0;
